@@ -43,9 +43,26 @@ Section Shapes.
   Qed.
 
   (* ---- freshly drawn kernels have the requested dimensions ---- *)
+  Lemma skipn_skipn_add A a b (v : list A) : skipn a (skipn b v) = skipn (b + a) v.
+  Proof.
+    revert v; induction b as [|b IH]; intros v; [reflexivity|].
+    destruct v as [|x v]; [destruct a; reflexivity|]. cbn [skipn Nat.add]. apply IH.
+  Qed.
+
+  (* the one-pass un-flattening is the positional one: row i is firstn c (skipn (i * c) v) *)
+  Lemma unflat2_spec A r c (v : list A) :
+    unflat2 r c v = build1 r (fun i => firstn c (skipn (i * c) v)).
+  Proof.
+    unfold build1. revert v. induction r as [|k IH]; intros v; [reflexivity|].
+    cbn [unflat2 seq map]. f_equal. rewrite IH, <- seq_shift, map_map.
+    apply map_ext. intros i. rewrite skipn_skipn_add. f_equal.
+  Qed.
+  Lemma length_unflat2 A r c (v : list A) : length (unflat2 r c v) = r.
+  Proof. rewrite unflat2_spec. apply length_build1. Qed.
+
   Lemma unflat2_rect2 A h w (v : list A) : h * w <= length v -> rect2 h w (unflat2 h w v).
   Proof.
-    intros Hl. unfold unflat2. split; [apply length_build1|].
+    intros Hl. rewrite unflat2_spec. split; [apply length_build1|].
     apply Forall_forall. intros r Hr. unfold build1 in Hr. apply in_map_iff in Hr.
     destruct Hr as (i & <- & Hi). apply in_seq in Hi.
     rewrite firstn_length, skipn_length. nia.
@@ -208,12 +225,12 @@ Section Shapes.
       unfold dense_forward, dot in Hfw; cbn [d_weights tdata d_bias d_act] in Hfw.
     - destruct (tdata x) as [v| | |]; try discriminate. cbn [bind] in Hfw.
       unfold add_inplace, binop_inplace, t_single in Hfw. cbn [tshape tdata] in Hfw.
-      rewrite map_length in Hfw. unfold unflat2 in Hfw. rewrite length_build1 in Hfw.
+      rewrite map_length in Hfw. rewrite length_unflat2 in Hfw.
       destruct (shape_eqb _ _); [|discriminate]. cbn [bind ew2] in Hfw.
       destruct (act_forward a _) as [q|]; [|discriminate]. cbn [bind] in Hfw. injection Hfw as <- _. reflexivity.
     - destruct (tdata x) as [v| | |]; try discriminate. cbn [bind] in Hfw.
       destruct (act_forward a _) as [q|]; [|discriminate]. cbn [bind] in Hfw. injection Hfw as <- _.
-      unfold t_single. cbn [tshape]. rewrite map_length. unfold unflat2. rewrite length_build1. reflexivity.
+      unfold t_single. cbn [tshape]. rewrite map_length. rewrite length_unflat2. reflexivity.
   Qed.
 
   (* ---- flat sizes: accepted exactly as 1 x r x r with r*r = size ---- *)
